@@ -322,6 +322,7 @@ runs['gtid-56-containsgtid'] = {'func': 'Mysql56GTIDSet.ContainsGTID', 'ifacetag
 runs['gtid-56-add'] = {'func': 'Mysql56GTIDSet.AddGTID', 'ifacetag': 'replication.GTID=replication.Mysql56GTID'}
 runs['gtid-56-contains'] = {'func': 'Mysql56GTIDSet.Contains', 'ifacetag': 'replication.GTIDSet=replication.Mysql56GTIDSet'}
 runs['gtid-sidblock-read'] = {'func': 'NewMysql56GTIDSetFromSIDBlock', 'timeout': 40}
+runs['gtid-prev56'] = {'func': 'mysql56BinlogEvent.PreviousGTIDs'}
 runs['gtid-maria-contains'] = {'func': 'MariadbGTIDSet.ContainsGTID', 'ifacetag': 'replication.GTID=replication.MariadbGTID'}
 runs['gtid-maria-add'] = {'func': 'MariadbGTIDSet.AddGTID', 'ifacetag': 'replication.GTID=replication.MariadbGTID'}
 
@@ -336,11 +337,11 @@ props['C18'] = {
 }
 props['C19'] = {
     'level': 'other',
-    'explanation': "Partial, by contract on the real code. Decided for all inputs: (a) GTID events decode to the identifiers the master wrote — for every event body of sufficient length and every valid format, mysql56BinlogEvent.GTID returns the 16 server-id bytes at header+1 and the little-endian sequence number at header+17, mariadbBinlogEvent.GTID returns sequence / domain from the body, the server id from the common header and the begin flag from FL_STANDALONE; (b) MariadbGTIDSet.ContainsGTID compares sequence numbers within the GTID's domain (true iff the entry of that domain has reached the sequence number, false if the domain is absent); (c) MariadbGTIDSet.AddGTID on a set with one position per domain returns a set that differs from the receiver exactly at that domain (greater of the two positions) or has the GTID appended, and never writes the receiver's memory (frame obligations; defect F12 repaired). (d) the SID-block reader: for every block with the documented layout whose intervals are ones the writer emits (1 <= start < stored exclusive end, as unsigned numbers — which includes the stored end 2^63), decoding succeeds and every interval appended to the result is (start, stored end - 1) of the 16 bytes just read under the server id just read (bytes.Reader / binary.Read by library contract; position invariants over a recursive layout function). Not decided: text round trips (String / Parse*, strconv and strings parsing, fmt, the flavor registry maps built in init), the SID-block writer (map iteration + sort) and hence the round trip as a whole, PreviousGTIDs events.",
+    'explanation': "Partial, by contract on the real code. Decided for all inputs: (a) GTID events decode to the identifiers the master wrote — for every event body of sufficient length and every valid format, mysql56BinlogEvent.GTID returns the 16 server-id bytes at header+1 and the little-endian sequence number at header+17, mariadbBinlogEvent.GTID returns sequence / domain from the body, the server id from the common header and the begin flag from FL_STANDALONE; (b) MariadbGTIDSet.ContainsGTID compares sequence numbers within the GTID's domain (true iff the entry of that domain has reached the sequence number, false if the domain is absent); (c) MariadbGTIDSet.AddGTID on a set with one position per domain returns a set that differs from the receiver exactly at that domain (greater of the two positions) or has the GTID appended, and never writes the receiver's memory (frame obligations; defect F12 repaired). (d) the SID-block reader: for every block with the documented layout whose intervals are ones the writer emits (1 <= start < stored exclusive end, as unsigned numbers — which includes the stored end 2^63), decoding succeeds and every interval appended to the result is (start, stored end - 1) of the 16 bytes just read under the server id just read (bytes.Reader / binary.Read by library contract; position invariants over a recursive layout function). Not decided: text round trips (String / Parse*, strconv and strings parsing, fmt, the flavor registry maps built in init), the SID-block writer (map iteration + sort) and hence the round trip as a whole. (e) A MySQL 5.6 previous-GTIDs event decodes its body through that reader (succeeds for every well-formed body).",
     'claim': "GTID event decoding (both flavors), MariaDB set containment and copy-on-add, and the SID-block reader proved for all inputs; textual forms and the SID-block writer not covered.",
     'note': "Trusted: govc, solvers, encoding/binary model. The dynamic type of the GTID argument is fixed to MariadbGTID in the set units.",
     'technique': GEN,
-    'runs': ['gtid-ev56', 'gtid-evmaria', 'gtid-maria-contains', 'gtid-maria-add', 'gtid-sidblock-read'],
+    'runs': ['gtid-ev56', 'gtid-evmaria', 'gtid-maria-contains', 'gtid-maria-add', 'gtid-sidblock-read', 'gtid-prev56'],
     'assumptions': ["the GTID argument has dynamic type MariadbGTID in the set units (unit parameter -ifacetag); another dynamic type returns false / the receiver on the first lines of these functions"],
 }
 
